@@ -1,9 +1,11 @@
 // Correspondence + oracle harness for C14 (RTSP wire codec).
 //
 // Real code exercised, in-process:
-//   av/format/rtsp   Request.Write / ReadRequest, Response.Write / ReadResponse, Header.Write / ReadHeader / readLine
-//   av/format/rtp    Packet.Write / ReadPacket (+ pion Header.Unmarshal behind it)
-//   service/rtsp     receive (io.go), looped as Session.process / PullClient do
+//
+//	av/format/rtsp   Request.Write / ReadRequest, Response.Write / ReadResponse, Header.Write / ReadHeader / readLine
+//	av/format/rtp    Packet.Write / ReadPacket (+ pion Header.Unmarshal behind it)
+//	service/rtsp     receive (io.go), looped as Session.process / PullClient do
+//
 // over bufio.Readers of several sizes fed by a reader that cuts the stream into generated chunks.
 //
 // Case families: rt-req / rt-resp / rt-pkt (a generated message is written by the real
@@ -276,10 +278,10 @@ func urlTable(stream []byte, extra map[string]bool) string {
 // ---------------------------------------------------------------- implementation runners
 
 type readOut struct {
-	text string // ok=<rendering> rest=<n> | err=<kind> | panic
-	ok   bool
-	rend string
-	rest int
+	text  string // ok=<rendering> rest=<n> | err=<kind> | panic
+	ok    bool
+	rend  string
+	rest  int
 	alloc uint64
 }
 
@@ -328,7 +330,7 @@ func implReadPkt(stream []byte, chans []int, d delivery) readOut {
 		br := d.reader(stream)
 		p, err := rtp.ReadPacket(br, chans)
 		if err != nil {
-			if p != nil && errKind(err) == "rtp-channel" {
+			if p != nil {
 				n := restLen(br)
 				return readOut{text: fmt.Sprintf("ok=skip rest=%d", n), ok: true, rend: "skip", rest: n}
 			}
